@@ -8,6 +8,7 @@ from .c01 import sym_bloom, hv
 from .c12 import FIXED
 
 PROPERTY = "C19"
+CROSS_CHECK = True      # thorough: dumped assertion queries are re-decided by z3 4.8.12 and cvc5 1.0
 LEVEL = "model_checking"
 STUBS = ["array/bytes/Struct/BytesIO shadows", "float/math in the Bloom modules -> opaque floats (statistics run, their values are not modelled)",
          "cuckoo: see C03; on-disk Bloom: see C11 (c11.queries)"]
